@@ -65,6 +65,10 @@ class ScanModel:
         self.result, self.final = ev.run_function(fi, args=args)
         if ev.issues:
             raise Unrecognised(f"{fi.name}: {ev.issues[0]}")
+        from .values import Gam as _Gam
+        if isinstance(self.result, _Gam) and not any(isinstance(t_, Term) and t_.head in ('loopvar', 'loopstate', 'stored', 'lib:next') for t_ in walk_vals(self.result.pred)):
+            raise Unrecognised(f"{fi.name}: the function chooses between the scan and another way of computing the result (a fast path in front of it) "
+                               f"under a condition outside the scan's vocabulary: {str(self.result.pred)[:120]}")
         self._loops()
         self._roles()
 
